@@ -64,9 +64,25 @@ Definition prop_min (m : nat) (vs : list frame) : list frame :=
   | p :: vs' => if m <? fmin p then mkframe (fnode p) (fcur p) m :: vs' else vs
   end.
 
-(* One Fixpoint for the body of wto::visit (the while loop over visit_stack) with
-   wto::component unfolded in place; [f] is fuel: one unit per loop iteration, and a nested
-   visit (called from component) starts with the fuel that is left. *)
+(* wto::component(g, v) given wto::visit: for every successor with dfn 0 call visit on the
+   partition of the new component, in successor order. *)
+Fixpoint comp_succs (visit : nat -> st -> wto -> option (st * wto))
+         (l : list nat) (s : st) (p : wto) {struct l} : option (st * wto) :=
+  match l with
+  | [] => Some (s, p)
+  | x :: l' =>
+    if is_zero (dfn s x) then
+      match visit x s p with
+      | Some (s2, p2) => comp_succs visit l' s2 p2
+      | None => None
+      end
+    else comp_succs visit l' s p
+  end.
+
+(* The body of wto::visit (the while loop over visit_stack); [f] is fuel: one unit per loop
+   iteration, and a nested visit (called from component) starts with the fuel that is left.
+   A call of wto::visit(g, x, p) in state s is
+     let s1 := discover x s in loop f g [new_frame g x s1] [] s1 p. *)
 Fixpoint loop (f : nat) (g : graph) (vs : list frame) (ln : list nat) (s : st) (part : wto)
   {struct f} : option (st * wto) :=
   match f with
@@ -99,21 +115,9 @@ Fixpoint loop (f : nat) (g : graph) (vs : list frame) (ln : list nat) (s : st) (
             match pop_until v d1 (stk s) with
             | None => None
             | Some (d2, stk2) =>
-              (* component(g, v) *)
-              match
-                (fix comp_succs (l : list nat) (s : st) (p : wto) {struct l} : option (st * wto) :=
-                   match l with
-                   | [] => Some (s, p)
-                   | x :: l' =>
-                     if is_zero (dfn s x) then
-                       let s1 := discover x s in
-                       match loop f' g [new_frame g x s1] [] s1 p with
-                       | Some (s2, p2) => comp_succs l' s2 p2
-                       | None => None
-                       end
-                     else comp_succs l' s p
-                   end) (succs g v) (mkst d2 (num s) stk2) []
-              with
+              match comp_succs
+                      (fun x s p => let s1 := discover x s in loop f' g [new_frame g x s1] [] s1 p)
+                      (succs g v) (mkst d2 (num s) stk2) [] with
               | Some (s3, body) => loop f' g vs1 ln s3 (Cycle v body :: part)
               | None => None
               end
